@@ -24,8 +24,9 @@ variable {K : Type}
 theorem gen_defaults_eq_model :
     WrapSource.wrapFlagDefault = wrapFlagDefault ∧ WrapSource.boxSetScaleDefault = boxSetScaleDefault ∧
     WrapSource.normStyleDefault = normStyleDefault ∧ WrapSource.normFlagDefault = normFlagDefault ∧
-    WrapSource.lmpFlagDefault = normFlagDefault ∧ WrapSource.normStyleAccepted = normStyleAccepted :=
-  ⟨rfl, rfl, rfl, rfl, rfl, rfl⟩
+    WrapSource.lmpFlagDefault = normFlagDefault ∧ WrapSource.normStyleAccepted = normStyleAccepted ∧
+    WrapSource.wrapParams = wrapParams ∧ WrapSource.normParams = normParams ∧ WrapSource.lmpParams = lmpParams :=
+  ⟨rfl, rfl, rfl, rfl, rfl, rfl, rfl, rfl, rfl⟩
 
 /-- which test each entry point applies to its flag (`if flag:` = truthiness, `isinstance(scale, bool)`, `scale is True`)
     and which exception it refuses with. -/
